@@ -476,6 +476,39 @@ func checkEnvLoader(rep *core.Report, r4 *core.RuleRun, fn *ssa.Function) {
 	}
 	r4.Check(hasPrefix, name+":prefix", getenv.Pos(), "variable name contains the constant VFLOW_", "environment variable name is not built from the VFLOW_ prefix")
 	r4.Check(hasYaml && tagIdx != nil, name+":tag", getenv.Pos(), "variable name derives from the field's own yaml tag", "environment variable name does not derive from the field's yaml tag")
+	// the tag text is the key only as long as the tag carries no option: `yaml:"key,omitempty"` still names the file key
+	// "key" for the YAML loader, but a loader that upper-cases the whole tag looks for VFLOW_KEY,OMITEMPTY
+	cuts := false
+	for v := range sl {
+		if c, ok := v.(*ssa.Call); ok {
+			if f := c.Common().StaticCallee(); f != nil && f.Pkg != nil && f.Pkg.Pkg.Path() == "strings" {
+				switch f.Name() {
+				case "Split", "SplitN", "Cut", "Index", "IndexByte", "IndexRune":
+					for _, a := range c.Common().Args {
+						if k, ok := a.(*ssa.Const); ok && k.Value != nil && (k.Value.ExactString() == `","` || k.Value.ExactString() == "44") {
+							cuts = true
+						}
+					}
+				}
+			}
+		}
+	}
+	if ot := rep.Prog.NamedType("vflow", "Options"); ot != nil {
+		if st, ok := ot.Underlying().(*types.Struct); ok {
+			n := 0
+			for i := 0; i < st.NumFields(); i++ {
+				tag := reflect.StructTag(st.Tag(i)).Get("yaml")
+				if tag == "" || tag == "-" {
+					continue
+				}
+				n++
+				if strings.Contains(tag, ",") && !cuts {
+					r4.Fail(name+":key-of:"+st.Field(i).Name(), st.Field(i).Pos(), fmt.Sprintf("the yaml tag of %s is %q: the file loader reads the key before the comma, the environment loader builds the variable name from the whole tag text, so VFLOW_%s is never looked up and the setting cannot be given through the environment", st.Field(i).Name(), tag, strings.ToUpper(strings.ReplaceAll(strings.SplitN(tag, ",", 2)[0], "-", "_"))))
+				}
+			}
+			r4.OK(name+":tags-are-bare-keys", getenv.Pos(), fmt.Sprintf("%d yaml tags examined (loader cuts options: %v)", n, cuts))
+		}
+	}
 	// loop over all fields: tagIdx is a phi starting at 0, incremented by 1, bounded by NumField()
 	loopOK := false
 	if phi, ok := tagIdx.(*ssa.Phi); ok {
